@@ -878,6 +878,11 @@ class PytatoKeyBuilder(LoopyKeyBuilder):
         self.rec(key_hash, key.shape)
         self.rec(key_hash, key.data.tobytes())
 
+    def update_for_numpy_scalar(self, key_hash: Any, key: Any) -> None:
+        # the raw bytes alone do not determine the scalar
+        self.rec(key_hash, key.dtype.str)
+        super().update_for_numpy_scalar(key_hash, key)
+
     def update_for_TaggableCLArray(self, key_hash: Any, key: Any) -> None:
         from arraycontext.impl.pyopencl.taggable_cl_array import (  # pylint: disable=import-error
             TaggableCLArray,
